@@ -209,11 +209,12 @@ def val_of(rng, cls, key, default_repr, files):
         ('TemperatureFile', 'delimiter'): None, ('TemperatureFile', 'reverse'): lambda: rng.choice(['True', 'no']),
         ('TemperatureFile', 'temp_units'): None, ('TemperatureFile', 'press_units'): None,
         ('TemperatureFile', 'skiprows'): lambda: '0', ('TemperatureFile', 'temp_col'): lambda: '0',
-        ('TaurexChemistry', 'fill_gases'): lambda: rng.choice(['H2, He', 'H2', 'H2, He, N2']),
+        # NO (nitric oxide) is also one of the parser's words for False: inside a list it is a molecule name
+        ('TaurexChemistry', 'fill_gases'): lambda: rng.choice(['H2, He', 'H2', 'H2, He, N2', 'N2, NO', 'NO, He']),
         ('TaurexChemistry', 'ratio'): lambda: '%g' % rng.uniform(0.05, 0.3),
         ('TaurexChemistry', 'derived_ratios'): lambda: rng.choice(['C/O,', 'C/O, N/O']),
         ('TaurexChemistry', 'base_metallicty'): lambda: '%g' % rng.uniform(0.5, 2),
-        ('ChemistryFile', 'filename'): lambda: files['chem'], ('ChemistryFile', 'gases'): lambda: 'H2O, CH4',
+        ('ChemistryFile', 'filename'): lambda: files['chem'], ('ChemistryFile', 'gases'): lambda: rng.choice(['H2O, CH4', 'H2O, NO', 'NO, CH4']),
         ('PowerGas', 'profile_type'): lambda: rng.choice(['auto', 'H2O', 'TiO']),
         ('ArrayGas', 'mix_ratio_array'): lambda: '1e-4, 1e-5, 1e-6',
         ('CIAContribution', 'cia_pairs'): lambda: rng.choice(['H2-H2,', 'H2-He, H2-H2']),
